@@ -43,6 +43,12 @@ def run(rep, work, tier, seed):
     leg_m(rep, work, SPEC, f"prep_mc_{tier}", cfg_text(prep, spec="Spec", invariants=INVS, properties=PROPS),
           expect_actions=["Prepare", "EnterPrepared", "ReEnter", "Start"], timeout=3000)
     leg_r(rep, work, SPEC, f"prep_conf_{tier}", cfg_text(prep, invariants=INVS), lambda: ScopesDriver(("A", "B")), world=True)
+    # the tasks in which a scope's disposables are entered and exited are tasks too: each works inside a state update of its
+    # own, concurrently with its siblings, and never sees a sibling's (ScopeLife.tla with suspending disposables)
+    from props.scopelife_common import ScopeLifeDriver
+    life = dict(ND=2 if tier == "quick" else 3, NC=0, Behaviours=["ok", "susp"], Bug="none")
+    leg_r(rep, work, "ScopeLife", f"life_conf_{tier}", cfg_text(life, invariants=["TypeOK", "DisposableStateVisible"]),
+          ScopeLifeDriver, world=True)
     # leg T: random programs beyond the exhaustive bound (depth 6, ~28 operations, 4 task(s)) validated by a trace
     # module generated from Scopes.tla
     rnd = random.Random(seed * 13 + 4)
@@ -61,6 +67,9 @@ def run(rep, work, tier, seed):
 
 def replay(rep, record):
     from harness.graph import parse_label
+    if record.get("spec") == "ScopeLife":
+        from props.scopelife_common import replay as life_replay
+        return life_replay(rep, record)
     d = ScopesDriver(("A", "B"))
     d.reset(record["init"])
     try:
